@@ -254,4 +254,58 @@ theorem reassembly_statements :
     ∧ Gen.Reasm.msgComplete = "self.blocks[-1].header.last_block"
     ∧ Gen.Reasm.fromBlock = "cls(block.header, block.data, complete=False)" := by decide
 
+/-- every non-empty-enough byte string is its length byte, ten header bytes, data and a tail -/
+theorem raw_cut (raw : Bytes) (n : Nat) (hlen : raw.length = 1 + 10 + n + 2) :
+    ∃ l hb data ck, raw = l :: (hb ++ (data ++ ck)) ∧ hb.length = 10 ∧ data.length = n ∧ ck.length = 2 := by
+  match raw, hlen with
+  | l :: rest, hlen =>
+    refine ⟨l, rest.take 10, (rest.drop 10).take n, (rest.drop 10).drop n, ?_, ?_, ?_, ?_⟩
+    · rw [List.take_append_drop, List.take_append_drop]
+    · simp at hlen ⊢; omega
+    · simp at hlen ⊢; omega
+    · simp at hlen ⊢; omega
+
+/-- **The decoder accepts only canonical encodings.**  Whenever `Block.decode` returns a block for a byte string, that byte
+string is exactly `Block.encode` of the returned block: no second wire form of any block is accepted, the returned header is
+in range and the data field is at most 245 bytes (the length byte bounds it). -/
+theorem decode_canonical (raw : Bytes) (araw : AllBytes raw) (b : Block) (hd : Block.decode raw = .ok (some b)) :
+    Block.encode b = .ok raw ∧ b.data.length ≤ 245 := by
+  have hd0 := hd
+  rw [decode_eq] at hd
+  by_cases c1 : raw.length < 1
+  · rw [if_pos c1] at hd; cases hd
+  rw [if_neg c1] at hd
+  by_cases c2 : ofBe (raw.take 1) < 10
+  · rw [if_pos c2] at hd; cases hd
+  rw [if_neg c2] at hd
+  by_cases c3 : raw.length ≠ 1 + 10 + (ofBe (raw.take 1) - 10) + 2
+  · rw [if_pos c3] at hd; cases hd
+  clear hd
+  have c3' : raw.length = 1 + 10 + (ofBe (raw.take 1) - 10) + 2 := by omega
+  obtain ⟨l, hb, data, ck, hraw, hhb, hdl, hck⟩ := raw_cut raw _ c3'
+  subst hraw
+  have e1 : ofBe ((l :: (hb ++ (data ++ ck))).take 1) = l := by simp [ofBe]
+  rw [e1] at c2 hdl
+  have all := araw
+  have hl : l < 256 := araw l (by simp)
+  have arest : AllBytes (hb ++ (data ++ ck)) := fun x hx => araw x (by simp at hx ⊢; right; exact hx)
+  have ahb : AllBytes hb := (allBytes_append.mp arest).1
+  have adata : AllBytes data := (allBytes_append.mp (allBytes_append.mp arest).2).1
+  have ack : AllBytes ck := (allBytes_append.mp (allBytes_append.mp arest).2).2
+  obtain ⟨h, _, henc, hds⟩ := decode_struct l hb data ck hhb hck hl ahb
+  rw [hd0, if_pos (by omega)] at hds
+  by_cases hs : (hb ++ data).sum = ofBe ck
+  · rw [if_pos hs] at hds
+    have hb' : b = ⟨h, data⟩ := by injection hds with h1; injection h1
+    subst hb'
+    refine ⟨?_, by simp; omega⟩
+    rw [encode_struct h data hb henc hhb ahb adata (by omega), hs]
+    have := be_ofBe ck ack
+    rw [hck] at this
+    rw [this]
+    have : 10 + data.length = l := by omega
+    rw [this]
+  · rw [if_neg hs] at hds
+    injection hds with h1; cases h1
+
 end SecsModel.Props.C16
